@@ -482,7 +482,7 @@ class Session:
     gin = self.gin
     leaf = op['name']
     if phase == 'class':
-      cls = self.pending_classes.pop(op['obj'])
+      cls = self.pending_classes[op['obj']]   # kept: a refused registration may be tried again later
       returned = gin.external_configurable(cls) if op['_api'] == 'external' else gin.register(cls)
       self.entries[op['obj']] = Entry(op['obj'], cls, returned, op['_api'], 'init', op['_selector'])
       return
